@@ -26,3 +26,15 @@ func FromContext(ctx context.Context) (*Metadata, bool) {
 	data, ok := ctx.Value(FingerproxyContextKey).(*Metadata)
 	return data, ok
 }
+
+// NewContextWithSnapshot returns a context that carries a copy of md as it is
+// now. Later changes to md - the HTTP/2 server keeps recording frames while
+// requests are being handled - do not show through the copy.
+func NewContextWithSnapshot(ctx context.Context, md *Metadata) context.Context {
+	snapshot := *md
+	f := &snapshot.HTTP2Frames
+	f.Settings = append([]Setting(nil), f.Settings...)
+	f.Priorities = append([]Priority(nil), f.Priorities...)
+	f.Headers = append([]HeaderField(nil), f.Headers...)
+	return context.WithValue(ctx, FingerproxyContextKey, &snapshot)
+}
